@@ -300,6 +300,9 @@ func main() {
 	}
 	structural(pkgs)
 	indexSites(pkgs)
+	if p := pkgs["cors"]; p != nil {
+		icfgWrites(p)
+	}
 
 	var buf bytes.Buffer
 	buf.WriteString("/- GENERATED by /verif/harness/extract from the working tree of /repo. Do not edit. -/\n")
